@@ -312,9 +312,8 @@ def _attr_update(ex, a, other, w, kw=None):
             oh, ov = c.EMPTY, val
         else:
             raise Unsupported("update(%s)" % type(other).__name__)
-        x = c.fresh("u", c.Id)
         has = c.union(has, oh)
-        val = z3.Lambda([x], z3.If(z3.Select(oh, x), z3.Select(ov, x), z3.Select(val, x)))
+        val = c.mapof(lambda x, oh=oh, ov=ov, val=val: z3.If(z3.Select(oh, x), z3.Select(ov, x), z3.Select(val, x)), val)
     for k, v in (kw or {}).items():
         kt = c.strlit(k)
         has = c.add(has, kt)
